@@ -1,7 +1,7 @@
 (* C09 — compiler correctness: the machine running the model-compiled code
    simulates the reference evaluator (forward simulation, Ok outcomes). *)
 From Coq Require Import String List Bool Arith Lia.
-From NV Require Import VM.Value VM.Ast VM.Bytecode VM.Compile VM.Machine VM.RefSem.
+From NV Require Import VM.Value VM.Ast VM.Bytecode VM.Compile VM.Machine VM.RefSem VM.SortLemmas.
 Import ListNotations.
 Open Scope list_scope.
 
@@ -1028,7 +1028,231 @@ Proof.
     rewrite rev_involutive, sapp_nil_r. reflexivity.
 Qed.
 
-Hypothesis Hlits : lits = (false, false).
+(* ---- struct literals: fields sorted by definition index, emitted in reverse *)
+Lemma evals_fields_names : forall (ev : expr Q -> res (value Q)) fields fvs,
+  evals (fun nf : string * expr Q => bind (ev (snd nf)) (fun v => Ok (fst nf, v))) fields = Ok fvs ->
+  map fst fvs = map fst fields.
+Proof.
+  induction fields as [|[x e] fields IH]; simpl; intros fvs H.
+  - inversion H. reflexivity.
+  - apply bind_ok in H. destruct H as (p & Hp & H). apply bind_ok in H. destruct H as (r & Hr & E).
+    apply bind_ok in Hp. destruct Hp as (v & _ & Hp). inversion Hp; subst p. inversion E; subst fvs.
+    simpl. f_equal. apply IH. exact Hr.
+Qed.
+
+Lemma assoc_In_fst {A} : forall x (l : list (string * A)) a, assoc x l = Some a -> In x (map fst l).
+Proof.
+  induction l as [|[y b] l IH]; simpl; intros a H; [discriminate|].
+  destruct (String.eqb y x) eqn:E; [left; apply String.eqb_eq; exact E | right; eapply IH; exact H].
+Qed.
+
+Lemma collect_incl {A} : forall names (env : list (string * A)) vals,
+  collect names env = Some vals -> incl names (map fst env).
+Proof.
+  induction names as [|f names IH]; simpl; intros env vals H; [intros x []|].
+  destruct (assoc f env) as [a|] eqn:Ea; [|discriminate].
+  destruct (collect names env) as [vs|] eqn:Ec; [|discriminate].
+  intros x [Hx|Hx]; [subst; eapply assoc_In_fst; exact Ea | eapply IH; eassumption].
+Qed.
+
+Lemma mem_In : forall x l, mem x l = true <-> In x l.
+Proof.
+  intros. unfold mem. rewrite existsb_exists. split.
+  - intros (y & Hy & E). apply String.eqb_eq in E. subst. exact Hy.
+  - intro H. exists x. split; [exact H | apply String.eqb_refl].
+Qed.
+
+Lemma nodupb_NoDup : forall l, nodupb l = true -> NoDup l.
+Proof.
+  induction l as [|x l IH]; simpl; intro H; [constructor|].
+  apply andb_prop in H. destruct H as [H1 H2]. constructor; [|apply IH; exact H2].
+  intro Hin. apply mem_In in Hin. rewrite Hin in H1. discriminate.
+Qed.
+
+Lemma In_index_of : forall x l, In x l -> exists i, index_of x l = Some i.
+Proof.
+  induction l as [|y l IH]; simpl; intros H; [contradiction|].
+  destruct (String.eqb y x) eqn:E; [eauto|].
+  destruct H as [H|H]; [subst; rewrite String.eqb_refl in E; discriminate|].
+  destruct (IH H) as [i Hi]. rewrite Hi. eauto.
+Qed.
+
+Lemma assoc_NoDup_In {A} : forall (l : list (string * A)) x a,
+  NoDup (map fst l) -> In (x, a) l -> assoc x l = Some a.
+Proof.
+  induction l as [|[y b] l IH]; simpl; intros x a Hnd Hin; [contradiction|].
+  apply NoDup_cons_iff in Hnd. destruct Hnd as [Hni Hnd].
+  destruct Hin as [Hin|Hin].
+  - inversion Hin; subst. rewrite String.eqb_refl. reflexivity.
+  - destruct (String.eqb y x) eqn:E.
+    + apply String.eqb_eq in E. subst. exfalso. apply Hni. change x with (fst (x, a)). apply in_map. exact Hin.
+    + apply IH; assumption.
+Qed.
+
+Lemma assoc_app_l {A} : forall x (l l' : list (string * A)) a, assoc x l = Some a -> assoc x (l ++ l') = Some a.
+Proof.
+  induction l as [|[y b] l IH]; simpl; intros l' a H; [discriminate|].
+  destruct (String.eqb y x); [exact H | apply IH; exact H].
+Qed.
+
+(* one record per field: definition index, sub-compiler, (name, value) *)
+Definition zrec : Type := (nat * ((nat -> nat -> @frag Q) * (string * value Q)))%type.
+Definition zname (z : zrec) : string := fst (snd (snd z)).
+Definition zval (z : zrec) : value Q := snd (snd (snd z)).
+
+Lemma struct_zs : forall n, expr_ok n -> forall vg vn vf L ce fi fp frs sfields,
+  cenv_rel ce vg vn vf ->
+  forall fields fvs,
+    evals (fun nf : string * expr Q =>
+             bind (eval O stale lits n W vg vn vf L (snd nf)) (fun v => Ok (fst nf, v))) fields = Ok fvs ->
+    (forall x, In x (map fst fields) -> In x sfields) ->
+    exists zs : list zrec,
+      keyed sfields (map (fun nf : string * expr Q => (fst nf, fun nk na => cexpr ce (snd nf) nk na)) fields)
+      = Some (map (fun z : zrec => (fst z, fst (snd z))) zs) /\
+      Forall (fun z : zrec => comp_ok ce L fi fp frs (fst (snd z)) [zval z] /\
+                              index_of (zname z) sfields = Some (fst z)) zs /\
+      map (fun z : zrec => snd (snd z)) zs = fvs.
+Proof.
+  intros n IH vg vn vf L ce fi fp frs sfields Hrel.
+  induction fields as [|[x e] fields IHf]; simpl; intros fvs H Hin.
+  - inversion H. exists []. repeat split. constructor.
+  - apply bind_ok in H. destruct H as (p & Hp & H). apply bind_ok in H. destruct H as (r & Hr & E).
+    apply bind_ok in Hp. destruct Hp as (v & Hv & Hp). inversion Hp; subst p. inversion E; subst fvs.
+    destruct (In_index_of x sfields (Hin x (or_introl eq_refl))) as [k Hk].
+    destruct (IHf r Hr (fun y Hy => Hin y (or_intror Hy))) as (zs & K & F & M).
+    exists ((k, ((fun nk na => cexpr ce e nk na), (x, v))) :: zs). repeat split.
+    + rewrite Hk, K. reflexivity.
+    + constructor; [|exact F]. split; [|exact Hk].
+      unfold zval. simpl. eapply IH; eassumption.
+    + simpl. rewrite M. reflexivity.
+Qed.
+
+Lemma keys_NoDup : forall sfields (zs : list zrec),
+  Forall (fun z => index_of (zname z) sfields = Some (fst z)) zs ->
+  NoDup (map zname zs) -> NoDup (map fst zs).
+Proof.
+  induction zs as [|z zs IH]; simpl; intros HF Hnd; [constructor|].
+  inversion HF as [|? ? Hz HF']; subst. apply NoDup_cons_iff in Hnd. destruct Hnd as [Hni Hnd].
+  constructor; [|apply IH; assumption].
+  intro Hin. apply in_map_iff in Hin. destruct Hin as (z' & Ez & Hz').
+  apply Hni. rewrite Forall_forall in HF'. pose proof (HF' z' Hz') as H'. rewrite Ez in H'.
+  rewrite (index_of_inj _ _ _ _ Hz H'). apply in_map. exact Hz'.
+Qed.
+
+Lemma names_by_keys : forall (l : list string) (sz : list zrec) pre,
+  Forall (fun z => nth_error (pre ++ l) (fst z) = Some (zname z)) sz ->
+  map fst sz = seq (length pre) (length l) ->
+  map zname sz = l.
+Proof.
+  induction l as [|x l IH]; intros sz pre HF Hk.
+  - simpl in Hk. destruct sz; [reflexivity | discriminate].
+  - simpl in Hk. destruct sz as [|z sz]; [discriminate|]. simpl in Hk. inversion Hk as [[Ez Er]].
+    inversion HF as [|? ? Hz HF']; subst. simpl. f_equal.
+    + rewrite Ez in Hz. rewrite nth_error_app2 in Hz by lia. rewrite Nat.sub_diag in Hz. simpl in Hz. congruence.
+    + apply (IH sz (pre ++ [x])).
+      * rewrite <- app_assoc. exact HF'.
+      * rewrite app_length. simpl. rewrite Nat.add_1_r. rewrite Ez in Er. exact Er.
+Qed.
+
+Lemma collect_by_assoc : forall (fvs : list (string * value Q)) (sz : list zrec),
+  Forall (fun z => assoc (zname z) fvs = Some (zval z)) sz ->
+  collect (map zname sz) fvs = Some (map zval sz).
+Proof.
+  induction sz as [|z sz IH]; simpl; intro HF; [reflexivity|].
+  inversion HF as [|? ? Hz HF']; subst. rewrite Hz, (IH HF'). reflexivity.
+Qed.
+
+Lemma Forall2_of_Forall : forall ce L fi fp frs (sz : list zrec),
+  Forall (fun z : zrec => comp_ok ce L fi fp frs (fst (snd z)) [zval z]) sz ->
+  Forall2 (comp_ok ce L fi fp frs) (map (fun z : zrec => fst (snd z)) sz) (map (fun z => [zval z]) sz).
+Proof. induction 1; simpl; constructor; assumption. Qed.
+
+Lemma concat_singletons {A B} (g : A -> B) : forall l, concat (map (fun z => [g z]) l) = map g l.
+Proof. induction l; simpl; [reflexivity | f_equal; assumption]. Qed.
+
+Lemma ok_struct : forall n, expr_ok n -> forall vg vn vf L sname sfields fields v ce fi fp frs,
+  snd lits = true ->
+  eval O stale lits (S n) W vg vn vf L (EStruct sname sfields fields) = Ok v ->
+  cenv_rel ce vg vn vf ->
+  comp_ok ce L fi fp frs (cexpr ce (EStruct sname sfields fields)) [v].
+Proof.
+  intros n IH vg vn vf L sname sfields fields v ce fi fp frs Hlit H Hrel. simpl in H.
+  rewrite Hlit in H. simpl in H.
+  destruct (assoc sname (w_structs W)) as [declared|] eqn:Ea; [|discriminate].
+  destruct (list_eqb String.eqb declared sfields) eqn:Ed; [|discriminate].
+  destruct (nodupb sfields) eqn:End; [|discriminate].
+  destruct (Nat.eqb (length fields) (length sfields)) eqn:El; [|discriminate]. simpl in H.
+  apply list_eqb_string_eq in Ed. subst declared. apply nodupb_NoDup in End. apply Nat.eqb_eq in El.
+  apply bind_ok in H. destruct H as (fvs & Hfvs & H).
+  destruct (collect sfields fvs) as [vals|] eqn:Ec; [|discriminate]. inversion H; subst v; clear H.
+  pose proof (evals_fields_names _ _ _ Hfvs) as Hnames.
+  pose proof (collect_incl _ _ _ Ec) as Hincl. rewrite Hnames in Hincl.
+  assert (Hlen : length (map fst fields) <= length sfields) by (rewrite map_length; lia).
+  pose proof (NoDup_incl_NoDup End Hlen Hincl) as Hnd.
+  pose proof (NoDup_length_incl End Hlen Hincl) as Hincl'.
+  destruct (struct_zs n IH vg vn vf L ce fi fp frs sfields Hrel fields fvs Hfvs Hincl') as (zs & K & F & M).
+  (* facts about the sorted records *)
+  set (sz := sort_by zs).
+  assert (Fsz : Forall (fun z : zrec => comp_ok ce L fi fp frs (fst (snd z)) [zval z] /\
+                                        index_of (zname z) sfields = Some (fst z)) sz).
+  { apply Forall_forall. intros z Hz. rewrite Forall_forall in F. apply F. apply (proj1 (sort_by_In zs z)). exact Hz. }
+  assert (Lzs : length zs = length sfields).
+  { rewrite <- El. rewrite <- (map_length (fun z : zrec => snd (snd z)) zs), M.
+    rewrite <- (map_length fst fvs), Hnames, map_length. reflexivity. }
+  assert (Lsz : length sz = length sfields) by (unfold sz; rewrite sort_by_length; exact Lzs).
+  assert (Nzs : NoDup (map zname zs)).
+  { assert (E : map zname zs = map fst fvs) by (rewrite <- M, map_map; reflexivity).
+    rewrite E, Hnames. exact Hnd. }
+  assert (Kzs : NoDup (map fst zs)).
+  { apply (keys_NoDup sfields); [|exact Nzs]. eapply Forall_impl; [|exact F]. intros z [_ Hz]. exact Hz. }
+  assert (Ksz : map fst sz = seq 0 (length sfields)).
+  { rewrite <- Lsz. apply ssorted_seq; [apply sort_ssorted; exact Kzs|].
+    intros z Hz. rewrite Forall_forall in Fsz. destruct (Fsz z Hz) as [_ Hi].
+    apply index_of_lt in Hi. rewrite Lsz. lia. }
+  assert (Nsz : map zname sz = sfields).
+  { apply (names_by_keys sfields sz []); [|exact Ksz].
+    eapply Forall_impl; [|exact Fsz]. intros z [_ Hz]. simpl. apply index_of_nth. exact Hz. }
+  assert (Vsz : map zval sz = vals).
+  { assert (Hc : collect (map zname sz) fvs = Some (map zval sz)).
+    { apply collect_by_assoc. apply Forall_forall. intros z Hz.
+      apply assoc_NoDup_In; [rewrite Hnames; exact Hnd|].
+      apply (proj1 (sort_by_In zs z)) in Hz. rewrite <- M.
+      change (zname z, zval z) with (snd (snd z)) || idtac.
+      replace (zname z, zval z) with (snd (snd z)) by (unfold zname, zval; destruct z as [? [? [? ?]]]; reflexivity).
+      apply (in_map (fun z : zrec => snd (snd z))). exact Hz. }
+    rewrite Nsz, Ec in Hc. inversion Hc. reflexivity. }
+  (* the compiled code *)
+  assert (Ks : sort_by (map (fun z : zrec => (fst z, fst (snd z))) zs)
+               = map (fun z : zrec => (fst z, fst (snd z))) sz).
+  { unfold sz. symmetry. apply (sort_by_map (fun y : (nat -> nat -> @frag Q) * (string * value Q) => fst y)). }
+  assert (Hcs : comp_ok ce L fi fp frs
+                  (cseq (rev (map snd (sort_by (map (fun z : zrec => (fst z, fst (snd z))) zs))))) (map zval sz)).
+  { rewrite Ks, map_map. simpl.
+    rewrite <- (concat_singletons zval sz). rewrite <- (rev_involutive (map (fun z => [zval z]) sz)).
+    apply cseq_ok. apply Forall2_rev.
+    apply Forall2_of_Forall. eapply Forall_impl; [|exact Fsz]. intros z [Hz _]. exact Hz. }
+  rewrite Vsz in Hcs.
+  destruct Hrel as (_ & _ & _ & _ & _ & [rest6 H6] & [rest7 H7]).
+  pose proof (index_of_assoc_fst sname (c_structs ce)) as Hix.
+  destruct (index_of sname (map fst (c_structs ce))) as [sidx|] eqn:Ei.
+  - destruct (assoc sname (c_structs ce)) as [fs'|] eqn:Ea'; [|contradiction].
+    assert (fs' = sfields).
+    { pose proof (assoc_app_l _ _ rest7 _ Ea') as E. rewrite <- H7, Ea in E. congruence. }
+    subst fs'.
+    apply (ok_emit ce L fi fp frs _ _ vals [VStruct sname sfields vals]
+             (fun _ _ => chk16 (length fields) (IBuildStruct sidx (length fields))) Hcs).
+    + intros. simpl. rewrite K. rewrite Ei. simpl. split; reflexivity.
+    + intros nk na ip stk s Hm Hs Hl. apply chk16_ok in Hm. destruct Hm as [Hm _]. rewrite Hm.
+      simpl. rewrite H6. rewrite (nth_error_app_l _ _ _ _ Hix).
+      assert (Lv : length vals = length sfields).
+      { rewrite <- Lsz. rewrite <- Vsz. apply map_length. }
+      rewrite El, <- Lv. rewrite app_length.
+      destruct (Nat.leb (length vals) (length vals + length stk)) eqn:E; [|apply Nat.leb_gt in E; lia].
+      rewrite firstn_length_app, skipn_length_app. reflexivity.
+  - apply (ok_emit ce L fi fp frs _ _ vals [VStruct sname sfields vals] (fun _ _ => ICompilePanic) Hcs).
+    + intros. simpl. rewrite K. rewrite Ei. simpl. split; reflexivity.
+    + intros nk na ip stk s Hm. discriminate.
+Qed.
 
 Theorem expr_correct : RelW -> forall n, expr_ok n.
 Proof.
@@ -1037,14 +1261,14 @@ Proof.
   - destruct e.
     + simpl in H. inversion H. apply (ok_const ce L fi fp frs (CScalar q)).
     + simpl in H. inversion H. apply (ok_const ce L fi fp frs (CBool b)).
-    + simpl in H. rewrite Hlits in H. discriminate.
+    + destruct (fst lits) eqn:El; [eapply ok_string; eassumption | simpl in H; rewrite El in H; discriminate].
     + simpl in H. eapply ok_ident; eassumption.
     + eapply ok_un; eassumption.
     + eapply ok_bin; eassumption.
     + eapply ok_call; eassumption.
     + eapply ok_callable; eassumption.
     + eapply ok_cond; eassumption.
-    + simpl in H. rewrite Hlits in H. discriminate.
+    + destruct (snd lits) eqn:El; [eapply ok_struct; eassumption | simpl in H; rewrite El in H; simpl in H; discriminate].
     + eapply ok_field; eassumption.
     + eapply ok_list; eassumption.
 Qed.
@@ -1110,7 +1334,7 @@ Proof.
   apply at_code_app in Ha. destruct Ha as [Ha Har].
   assert (Hs : stack_ok W ce [] 0 (rev (map snd (w_globals W)))).
   { split; [exists []; reflexivity|]. rewrite Hloc. split; reflexivity. }
-  destruct (expr_correct O stale (false, false) C W eq_refl HW n _ _ _ _ _ _ H ce 0 0 [] Hrel
+  destruct (expr_correct O stale (false, false) C W HW n _ _ _ _ _ _ H ce 0 0 [] Hrel
               nk na (csize pre) _ s0 Hs eq_refl Ha Hk Hm) as [k1 S1].
   assert (S2 : steps O C 1 (St 0 (csize pre + csize (f_code (cexpr ce e nk na))) 0 []
                                ([v] ++ rev (map snd (w_globals W))) s0)
@@ -1222,18 +1446,6 @@ Proof.
   destruct (index_of x l); exact IH.
 Qed.
 
-Lemma index_of_assoc_fst {A} : forall x (l : list (string * A)),
-  match index_of x (map fst l), assoc x l with
-  | Some i, Some a => nth_error l i = Some (x, a)
-  | None, None => True
-  | _, _ => False
-  end.
-Proof.
-  induction l as [|[y a] l IH]; simpl; [exact I|].
-  destruct (String.eqb y x) eqn:E.
-  - apply String.eqb_eq in E. subst. reflexivity.
-  - destruct (index_of x (map fst l)); destruct (assoc x l); try contradiction; [exact IH | exact I].
-Qed.
 
 (* ------------------------------------------------------------------ *)
 Section Top.
@@ -1241,7 +1453,6 @@ Context {Q : Type}.
 Variable O : ops Q.
 Variable stale : string -> nat -> bool.
 Variable lits : bool * bool.
-Hypothesis Hlits : lits = (false, false).
 Variable fin : @cstate Q.
 Notation C := (finish fin).
 Hypothesis Hok : compile_ok (finish fin) = true.
@@ -1367,7 +1578,7 @@ Proof.
     eapply (main_nomark (s_main st) _ (tail ++ r1)).
     rewrite Em. rewrite <- !app_assoc. reflexivity. }
   unfold top_eval in H.
-  destruct (expr_correct O stale lits C (r_world rst) Hlits HW n _ _ _ _ _ _ H (s_env st) 0 0 [] Hrel
+  destruct (expr_correct O stale lits C (r_world rst) HW n _ _ _ _ _ _ H (s_env st) 0 0 [] Hrel
               _ _ (csize (s_main st)) _ ms Hs (eq_trans (f_equal (@m_last Q) Ems) eq_refl)
               (main_at _ _ _ _ Em) (consts_pre_at _ _ _ Ek) Hm) as [k S1].
   exists k. rewrite <- S1. f_equal. rewrite Ems. reflexivity.
@@ -1583,7 +1794,7 @@ Proof.
   set (W := r_world rst) in *.
   set (fargs := cseq (map (fun a => cexpr (s_env st) a) args) (length (s_consts st)) (s_na st)) in *.
   pose proof (evals_length _ _ _ Hvs) as Hl.
-  pose proof (ok_args O stale lits C W n (expr_correct O stale lits C W Hlits HW n) _ _ _ [] args vs
+  pose proof (ok_args O stale lits C W n (expr_correct O stale lits C W HW n) _ _ _ [] args vs
                 (s_env st) 0 0 [] Hvs Hrel) as Hargs.
   assert (Hs : stack_ok W (s_env st) [] 0 (rev (map snd (w_globals W)))).
   { split; [exists []; reflexivity|]. rewrite Hloc. split; reflexivity. }
@@ -1686,12 +1897,12 @@ Proof.
   apply negb_false_iff in H. apply Nat.eqb_eq in H. subst. reflexivity.
 Qed.
 
-Theorem compile_correct_core {Q} : forall (O : ops Q) (p : program Q) n out v,
+Theorem compile_correct_lits {Q} : forall (O : ops Q) lits (p : program Q) n out v,
   compile_ok (compile (procs O) p) = true ->
-  run_checked_core O n p = Ok (out, v) ->
+  RefSem.run O (stale_in p) lits n p = Ok (out, v) ->
   exists m, Machine.run O (compile (procs O) p) m = Ok (out, v).
 Proof.
-  intros O p n out v Hok H. unfold run_checked_core, RefSem.run in H.
+  intros O lits p n out v Hok H. unfold RefSem.run in H.
   apply bind_ok in H. destruct H as (rst' & Hrun & E). inversion E; subst out v; clear E.
   set (fin := cstmts p (cinit (procs O))).
   assert (Hst : forall name idx, stale_in p name idx = false ->
@@ -1708,10 +1919,114 @@ Proof.
       + destruct (cstmts_pre p (cinit (procs O))) as (_ & _ & _ & _ & [r E]). exists r. exact E.
       + exists []. reflexivity.
     - intros i name fd Hi. destruct i; discriminate. }
-  destruct (stmts_run O (stale_in p) (false, false) eq_refl fin Hok Hst n p _ _ _ _ HI eq_refl Hrun)
+  destruct (stmts_run O (stale_in p) lits fin Hok Hst n p _ _ _ _ HI eq_refl Hrun)
     as (k & ms' & S & HI').
   destruct HI' as (_ & _ & _ & _ & _ & _ & Ems).
   exists (k + 1). unfold Machine.run. change (compile (procs O) p) with (finish fin).
   rewrite (steps_run O (finish fin) k 1 _ _ S). subst ms'.
   cbn [run_from]. rewrite (step_halt O (finish fin) _ _ _ _ _ _ _ _ _ _ (main_chunk fin)); [reflexivity | lia].
 Qed.
+
+(* the program-level theorem: the checked reference semantics (all constructs) *)
+Theorem compile_correct {Q} : forall (O : ops Q) (p : program Q) n out v,
+  compile_ok (compile (procs O) p) = true ->
+  run_checked O n p = Ok (out, v) ->
+  exists m, Machine.run O (compile (procs O) p) m = Ok (out, v).
+Proof. intros O p n out v. apply compile_correct_lits. Qed.
+
+Theorem no_panic_after_ok {Q} : forall (O : ops Q) (p : program Q) n out v,
+  compile_ok (compile (procs O) p) = true ->
+  run_checked O n p = Ok (out, v) ->
+  forall m, Machine.run O (compile (procs O) p) m = Fuel
+            \/ Machine.run O (compile (procs O) p) m = Ok (out, v).
+Proof.
+  intros O p n out v Hok H m. destruct (compile_correct O p n out v Hok H) as [m0 Hm0].
+  unfold Machine.run in *. eapply run_from_any. exact Hm0.
+Qed.
+
+(* ------------------------------------------------------------------ *)
+(* the clauses of the property, as instances of the simulation *)
+Section Clauses.
+Context {Q : Type}.
+Variable O : ops Q.
+Variable stale : string -> nat -> bool.
+Variable C : @compiled Q.
+Variable W : @world Q.
+Hypothesis HW : RelW O stale C W.
+
+(* list elements keep their source order *)
+Lemma list_order : forall n vg vn vf L es vs ce fi fp frs,
+  evals (eval O stale (true, true) n W vg vn vf L) es = Ok vs ->
+  cenv_rel O C W ce vg vn vf ->
+  comp_ok O C W ce L fi fp frs (cexpr ce (EList es)) [VList vs].
+Proof.
+  intros. eapply (expr_correct O stale (true, true) C W HW (S n)); [|eassumption].
+  simpl. rewrite H. reflexivity.
+Qed.
+
+(* call arguments are evaluated left to right and arrive in the callee's frame in
+   source order (first argument deepest) *)
+Lemma arg_order : forall n vg vn vf L args vs ce fi fp frs,
+  evals (eval O stale (true, true) n W vg vn vf L) args = Ok vs ->
+  cenv_rel O C W ce vg vn vf ->
+  comp_ok O C W ce L fi fp frs (cseq (map (fun a => cexpr ce a) args)) (rev vs).
+Proof.
+  intros. eapply ok_args; try eassumption. apply expr_correct. exact HW.
+Qed.
+
+(* string parts are joined in source order *)
+Lemma string_order : forall n vg vn vf L parts strs ce fi fp frs,
+  evals (fun p : string + (expr Q * option string) =>
+           match p with
+           | inl s => Ok s
+           | inr (a, None) => bind (eval O stale (true, true) n W vg vn vf L a) (fun v => Ok (to_str O v))
+           | inr (a, Some spec) => bind (eval O stale (true, true) n W vg vn vf L a) (fun v => fmt_spec O spec v)
+           end) parts = Ok strs ->
+  cenv_rel O C W ce vg vn vf ->
+  comp_ok O C W ce L fi fp frs (cexpr ce (EString parts)) [VStr (String.concat EmptyString strs)].
+Proof.
+  intros. eapply (expr_correct O stale (true, true) C W HW (S n)); [|eassumption].
+  simpl. rewrite H. reflexivity.
+Qed.
+
+(* every declared field of a struct literal receives the value of the source field of
+   that NAME, whatever the order in which the source lists the fields *)
+Lemma field_order : forall n vg vn vf L sname sfields fields fvs vals ce fi fp frs,
+  assoc sname (w_structs W) = Some sfields ->
+  nodupb sfields = true -> length fields = length sfields ->
+  evals (fun nf : string * expr Q =>
+           bind (eval O stale (true, true) n W vg vn vf L (snd nf)) (fun v => Ok (fst nf, v))) fields = Ok fvs ->
+  collect sfields fvs = Some vals ->
+  cenv_rel O C W ce vg vn vf ->
+  comp_ok O C W ce L fi fp frs (cexpr ce (EStruct sname sfields fields)) [VStruct sname sfields vals].
+Proof.
+  intros n vg vn vf L sname sfields fields fvs vals ce fi fp frs Ha Hn Hl Hf Hc Hrel.
+  eapply (expr_correct O stale (true, true) C W HW (S n)); [|eassumption].
+  simpl. rewrite Ha.
+  assert (E : list_eqb String.eqb sfields sfields = true).
+  { clear. induction sfields; simpl; [reflexivity | rewrite String.eqb_refl; assumption]. }
+  rewrite E, Hn, Hl, Nat.eqb_refl. simpl. rewrite Hf. simpl. rewrite Hc. reflexivity.
+Qed.
+
+(* every name refers to its innermost binding: the latest local (parameter or
+   where-local) of that name, else the latest global visible at the definition point *)
+Lemma innermost_local : forall vg vn vf L x i v ce fi fp frs,
+  find_last x L = Some (i, v) ->
+  cenv_rel O C W ce vg vn vf ->
+  comp_ok O C W ce L fi fp frs (cexpr ce (EIdent x)) [v].
+Proof.
+  intros. eapply (expr_correct O stale (true, true) C W HW 1); [|eassumption].
+  simpl. rewrite H. reflexivity.
+Qed.
+
+Lemma innermost_global : forall vg vn vf L x i v ce fi fp frs,
+  find_last x L = None ->
+  find_last x (firstn vg (w_globals W)) = Some (i, v) ->
+  cenv_rel O C W ce vg vn vf ->
+  comp_ok O C W ce L fi fp frs (cexpr ce (EIdent x)) [v].
+Proof.
+  intros. eapply (expr_correct O stale (true, true) C W HW 1); [|eassumption].
+  simpl. rewrite H, H0. reflexivity.
+Qed.
+
+End Clauses.
